@@ -1,7 +1,8 @@
 (** Replay of implementation observations on the searchable-encryption model (stand-in crypto). *)
 From Acra Require Import Lib.Bytes Lib.Outcome Lib.Sha256 Crypto.Interface Crypto.Stub Gen.Consts
   Model.Envelope.
-From Acra Require Export Model.Search.
+From Acra Require Import Model.EnvelopeOld.
+From Acra Require Export Model.Search Model.SearchExt.
 
 Definition mk_ks := Build_keyset.
 
@@ -15,7 +16,12 @@ Inductive op :=
 | CalcHmac (ks : keyset) (data : bytes)
 | Query (ks : keyset) (rows : list (list bytes)) (c : scond) (binds : list bytes)
 | HashProc (ks : keyset) (data : bytes)
-| TrDec (id : bytes) (ks : keyset) (data : bytes) (hash : option bytes).
+| TrDec (id : bytes) (ks : keyset) (data : bytes) (hash : option bytes)
+(* condition trees (NOT / parentheses / casts / either operand order), PostgreSQL and MySQL OnQuery + OnBind *)
+| QueryX (d : dialect) (ks : keyset) (rows : list (list bytes)) (c : wcond) (binds : list bytes)
+(* a history of columns through ONE hmac.Processor subscribed as the proxies do:
+   [processor; OldContainerDetectorWrapper(DecryptHandler(RegistryHandler)); processor.Verifier()] *)
+| HmacCols (ks : keyset) (cols : list bytes).
 
 Definition idb (id : bytes) : byte := nthb 0 id.
 
@@ -23,6 +29,14 @@ Definition canon1 (r : res bytes) : expected :=
   match r with Ok x => XOk [x] | Err _ => XErr | Panic => XPanic end.
 
 Definition flag_bytes (l : list bool) : bytes := map (fun b : bool => if b then x01 else x00) l.
+
+Fixpoint cols_expected (l : list (res (bytes * bool))) (acc : list bytes) : expected :=
+  match l with
+  | [] => XOk acc
+  | Ok (out, f) :: rest => cols_expected rest (acc ++ [out; [if f then x01 else x00]])
+  | Err _ :: _ => XErr
+  | Panic :: _ => XPanic
+  end.
 
 Definition run (o : op) : expected :=
   match o with
@@ -33,6 +47,10 @@ Definition run (o : op) : expected :=
       | Ok fl => XOk [flag_bytes fl] | Err _ => XErr | Panic => XPanic end
   | HashProc ks data => canon1 (column_hash_processor Stub ks data)
   | TrDec id ks data hash => canon1 (tr_decrypt_searchable Stub (idb id) ks data hash)
+  | QueryX d ks rows c binds =>
+      match run_queryx Stub d ks harness_schema rows c binds with
+      | Ok fl => XOk [flag_bytes fl] | Err _ => XErr | Panic => XPanic end
+  | HmacCols ks cols => cols_expected (hp_columns envelope_match (proxy_inner Stub ks) ks None cols) []
   end.
 
 Fixpoint list_bytes_eqb (a b : list bytes) : bool :=
